@@ -389,6 +389,7 @@ type macroDecl struct {
 type lib struct {
 	name   string
 	ext    string
+	dep    string   // another library that this one imports ("" if none)
 	vars   []string // "{% var K1 = 3 %}"
 	macros []macroDecl
 }
@@ -398,6 +399,18 @@ func (g *g) newLib(dir, ext string, abs bool) *lib {
 	g.n++
 	l := &lib{name: fmt.Sprintf("%slib%d%s", dir, g.n, ext), ext: ext}
 	var calls []string
+	var depVars []string
+	if len(g.libs) > 0 && g.r.Intn(3) == 0 {
+		// the library imports a library that other files import too
+		d := g.libs[g.r.Intn(len(g.libs))]
+		l.dep = d.name
+		for _, m := range d.macros {
+			calls = append(calls, m.call)
+		}
+		for _, v := range d.vars {
+			depVars = append(depVars, strings.Fields(v)[2])
+		}
+	}
 	if g.r.Intn(2) == 0 {
 		if g.r.Intn(2) == 0 {
 			// an initialiser with an observable call: it must run once per run
@@ -421,6 +434,7 @@ func (g *g) newLib(dir, ext string, abs bool) *lib {
 		if len(l.vars) > 0 && g.r.Intn(2) == 0 {
 			params = append(params, strings.Fields(l.vars[0])[2])
 		}
+		params = append(params, depVars...)
 		m.body = g.body(env{file: l.name, ext: ext, params: params, macros: calls, abs: abs}, 1+g.r.Intn(3), 0)
 		if i == 0 && len(l.vars) > 0 {
 			// the variable must be used: as a local variable (inlined form) it would otherwise not compile
@@ -435,6 +449,9 @@ func (g *g) newLib(dir, ext string, abs bool) *lib {
 // source of the imported file: declarations on separate lines.
 func (l *lib) source() string {
 	var b strings.Builder
+	if l.dep != "" {
+		fmt.Fprintf(&b, "{%% import %q %%}\n", "/"+l.dep)
+	}
 	for _, v := range l.vars {
 		b.WriteString(v + "\n")
 	}
@@ -448,6 +465,9 @@ func (l *lib) source() string {
 // no white space between them, explicit result type when asked.
 func (l *lib) inline(explicit bool) string {
 	var b strings.Builder
+	if l.dep != "" {
+		fmt.Fprintf(&b, "{%% import %q %%}", "/"+l.dep)
+	}
 	for _, v := range l.vars {
 		b.WriteString(v)
 	}
